@@ -428,6 +428,21 @@ func propC07(t *rapid.T) {
 		"log2": func(*rapid.T) {
 			logThrough(nodes[rapid.IntRange(0, len(nodes)-1).Draw(t, "node")])
 		},
+		"query": func(*rapid.T) {
+			// asking a logger about itself is not using it ("evaluated only if the logger is further chained with
+			// With or is written to"): a pending WithLazy stays pending
+			n := nodes[rapid.IntRange(0, len(nodes)-1).Draw(t, "queried")]
+			if n.sg != nil {
+				_ = n.sg.Level()
+				_ = n.sg.Desugar().Name()
+			} else {
+				_ = n.lg.Level()
+				_ = n.lg.Name()
+				_ = n.lg.Core().Enabled(zapcore.ErrorLevel)
+				_ = zapcore.LevelOf(n.lg.Core())
+			}
+			history = append(history, fmt.Sprintf("query(#%d)", n.id))
+		},
 		"mutate": func(rt *rapid.T) {
 			if len(cells) == 0 {
 				rt.Skip("no mutable marshaler yet")
